@@ -464,6 +464,14 @@ fn copy_sources(acc: &mut Acc) {
                 let dv = query.and_then(|q| q.strip_prefix("versionId=")).and_then(pct_decode);
                 let ok = db == bucket && dk == *key && dv.as_deref() == version;
                 acc.outcome(if ok { "copy-source encode: denotes the same" } else { "copy-source encode: DENOTES ANOTHER" });
+                // (3) and the library reads its own text back as the same source
+                match std::panic::catch_unwind(|| CopySource::parse(&text)) {
+                    Ok(Ok(CopySource::Bucket { bucket: b, key: k, version_id: v })) if &*b == bucket && &*k == key.as_str() && v.as_deref() == version => acc.outcome("copy-source parse(format) = id"),
+                    other => {
+                        acc.outcome("copy-source parse(format): DIFFERENT");
+                        acc.fail("C14/copy-source/own-encoding-not-read-back", text.len() as u64, id(), format!("({bucket:?},{key:?},{version:?}) encoded as {text:?}, read back as {:?}", other.map(|r| r.map_err(|e| e.to_string()))), json!({"text": text}));
+                    }
+                }
                 if !ok {
                     acc.fail("C14/copy-source/encode/not-url-encoded", text.len() as u64, id(), format!("({bucket:?},{key:?},{version:?}) encoded as {text:?}, which a standard reader takes for ({db:?},{dk:?},{dv:?})"), json!({"text": text}));
                 }
@@ -488,18 +496,38 @@ fn mimes(acc: &mut Acc) {
                 }
                 acc.eval();
                 acc.nontrivial(fnv(text.as_bytes()));
+                // what the text denotes: type, subtype (with its structured-syntax suffix) and the parameter list
+                let want_params: Vec<(&str, &str)> = match p {
+                    "" => vec![],
+                    "; charset=utf-8" => vec![("charset", "utf-8")],
+                    ";charset=UTF-8" => vec![("charset", "utf-8")], // the charset value is case-insensitive (RFC 9110 8.3.2)
+                    "; a=\"b c\"" => vec![("a", "b c")],
+                    "; a=b; c=d" => vec![("a", "b"), ("c", "d")],
+                    _ => vec![("boundary", "----x")],
+                };
+                let wildcard = t == "*" || s == "*";
                 match text.parse::<s3s::dto::ContentType>() {
                     Ok(m) => {
                         let out = m.to_string();
                         // re-encoded text denotes the same type: same essence, same parameters
                         let again = out.parse::<s3s::dto::ContentType>();
-                        let ok = again.as_ref().is_ok_and(|m2| m2 == &m) && m.type_().as_str().eq_ignore_ascii_case(t) && m.subtype().as_str().eq_ignore_ascii_case(s.split('+').next().unwrap_or(s)) || again.as_ref().is_ok_and(|m2| m2 == &m);
+                        let same_again = again.as_ref().is_ok_and(|m2| m2 == &m);
+                        let essence_ok = m.essence_str().eq_ignore_ascii_case(&format!("{t}/{s}"));
+                        let got_params: Vec<(String, String)> = m.params().map(|(k, v)| (k.as_str().to_ascii_lowercase(), if k.as_str().eq_ignore_ascii_case("charset") { v.as_str().to_ascii_lowercase() } else { v.as_str().to_owned() })).collect();
+                        let params_ok = got_params.iter().map(|(k, v)| (k.as_str(), v.as_str())).collect::<Vec<_>>() == want_params;
+                        let again_denotes = again.as_ref().is_ok_and(|m2| m2.essence_str().eq_ignore_ascii_case(&format!("{t}/{s}")) && m2.params().count() == want_params.len());
+                        let ok = same_again && essence_ok && params_ok && again_denotes;
                         acc.outcome(if ok { "mime: roundtrip ok" } else { "mime: roundtrip CHANGED" });
                         if !ok {
-                            acc.fail("C14/content-type/roundtrip", 0, id(), format!("{text:?} -> {out:?} -> {again:?}"), json!({}));
+                            let what = if !essence_ok { "essence-changed" } else if !params_ok { "parameters-changed" } else { "roundtrip" };
+                            acc.fail(&format!("C14/content-type/{what}"), 0, id(), format!("{text:?} parsed as essence {:?} with parameters {got_params:?}, re-encoded {out:?}, parsed again {again:?}", m.essence_str()), json!({}));
                         }
                     }
-                    Err(_) => acc.outcome("mime: refused"),
+                    Err(e) if !wildcard => {
+                        acc.outcome("mime: VALID REFUSED");
+                        acc.fail("C14/content-type/valid-refused", 0, id(), format!("{text:?} is a media type of RFC 9110 8.3.1 and was refused: {e}"), json!({}));
+                    }
+                    Err(_) => acc.outcome("mime: refused (wildcard form, not judged)"),
                 }
             }
         }
